@@ -19,12 +19,13 @@ import (
 // C11Case: one (possibly unacceptable) request, followed by a normal request
 // for the same subscriber.
 type C11Case struct {
-	Route   string   `json:"route"`          // create | update | release | recharge
-	Supi    string   `json:"supi,omitempty"` // SUPI shape in the body: "" valid; nodash|nai|gci|gli|short|slash|dotdot|long|empty|imsi-only
-	Ref     string   `json:"ref,omitempty"`  // path parameter shape: "" the real one; unknown|slashy|long|percent
-	Drop    []string `json:"drop,omitempty"` // JSON member paths deleted
-	Null    []string `json:"null,omitempty"` // JSON member paths set to null
-	Mcc     string   `json:"mcc"`            // nFPLMNID digits
+	Route   string   `json:"route"`           // create | update | release | recharge
+	Supi    string   `json:"supi,omitempty"`  // SUPI shape in the body: "" valid; nodash|nai|gci|gli|short|slash|dotdot|long|empty|imsi-only
+	Ref     string   `json:"ref,omitempty"`   // path parameter shape: "" the real one; unknown|slashy|long|percent
+	Drop    []string `json:"drop,omitempty"`  // JSON member paths deleted
+	Null    []string `json:"null,omitempty"`  // JSON member paths set to null
+	Empty   []string `json:"empty,omitempty"` // JSON member paths whose value is replaced by an empty value of its kind: {} [] "" 0
+	Mcc     string   `json:"mcc"`             // nFPLMNID digits
 	Mnc     string   `json:"mnc"`
 	PDU     bool     `json:"pdu,omitempty"` // carry pDUSessionChargingInformation
 	Reg     bool     `json:"reg,omitempty"` // carry registrationChargingInformation
@@ -72,8 +73,10 @@ func genC11(t *rapid.T) C11Case {
 	n := rapid.SampledFrom([]int{0, 1, 1, 1, 2, 3}).Draw(t, "nDrop")
 	for i := 0; i < n; i++ {
 		p := rapid.SampledFrom(dropPaths).Draw(t, "path")
-		if rapid.IntRange(0, 3).Draw(t, "null") == 0 {
+		if k := rapid.IntRange(0, 5).Draw(t, "null"); k == 0 {
 			c.Null = append(c.Null, p)
+		} else if k <= 2 {
+			c.Empty = append(c.Empty, p)
 		} else {
 			c.Drop = append(c.Drop, p)
 		}
@@ -123,6 +126,41 @@ func setPath(m map[string]interface{}, path string, del bool) bool {
 		}
 	}
 	return false
+}
+
+// emptyPath replaces the member at path by the empty value of its kind (present, but with nothing in it).
+func emptyPath(m map[string]interface{}, path string) {
+	parts := strings.Split(path, ".")
+	var cur interface{} = m
+	for i, p := range parts {
+		last := i == len(parts)-1
+		switch node := cur.(type) {
+		case map[string]interface{}:
+			if last {
+				switch node[p].(type) {
+				case map[string]interface{}:
+					node[p] = map[string]interface{}{}
+				case []interface{}:
+					node[p] = []interface{}{}
+				case string:
+					node[p] = ""
+				case nil:
+				default:
+					node[p] = 0
+				}
+				return
+			}
+			cur = node[p]
+		case []interface{}:
+			idx, err := strconv.Atoi(p)
+			if err != nil || idx >= len(node) {
+				return
+			}
+			cur = node[idx]
+		default:
+			return
+		}
+	}
 }
 
 func (c C11Case) supi(valid string) string {
@@ -212,6 +250,9 @@ func (c C11Case) body(supi string, chargingID int32, lsn int32) []byte {
 	for _, p := range c.Null {
 		setPath(m, p, false)
 	}
+	for _, p := range c.Empty {
+		emptyPath(m, p)
+	}
 	b, _ := json.Marshal(m)
 	if c.Pad > 0 && len(b) > 2 {
 		// white space between tokens is insignificant (RFC 8259): the same document, only longer
@@ -223,6 +264,9 @@ func (c C11Case) body(supi string, chargingID int32, lsn int32) []byte {
 func (c C11Case) classify(v *h.Verdict) {
 	for _, p := range append(append([]string{}, c.Drop...), c.Null...) {
 		v.NT("absent:" + strings.Split(p, ".")[0])
+	}
+	for _, p := range c.Empty {
+		v.NT("empty:" + strings.Split(p, ".")[0])
 	}
 	if c.Supi != "" {
 		v.NT("supi:" + c.Supi)
